@@ -222,6 +222,9 @@ func (r *Run) Violation(class, key string, witness any) {
 	_ = os.WriteFile(path, b, 0o644)
 	fmt.Printf("VIOLATION property=%s replay=%s\n", r.Prop, path)
 	fmt.Printf("  class=%s key=%s\n", class, trunc(key, 400))
+	if wb, err := json.Marshal(witness); err == nil {
+		fmt.Printf("  witness=%s\n", trunc(string(wb), 600))
+	}
 }
 
 func trunc(s string, n int) string {
